@@ -17,6 +17,8 @@ import (
 	"time"
 
 	"github.com/buchgr/bazel-remote/v2/cache"
+	pb "github.com/buchgr/bazel-remote/v2/genproto/build/bazel/remote/execution/v2"
+	"google.golang.org/protobuf/proto"
 )
 
 var vLostUploads int
@@ -160,6 +162,33 @@ func TestVerifGrpcProxyRoundTrip(t *testing.T) {
 			}()
 			if rerr != nil || sz != int64(n) || (mode == "uncompressed" && !bytes.Equal(got, data)) {
 				rec.Violation("C12,C20", "grpcproxy.get-unknown-size-differs", fmt.Sprintf("%s mode: Get with unknown size of a %d-byte blob returned %d bytes (size %d, err %v)", mode, n, len(got), sz, rerr), map[string]int{"size": n})
+			}
+		}
+		// an action-cache entry the peer holds: the client does not know the size of the action
+		// digest (it asks with -1), the peer must answer all the same
+		for i := 0; i < 3; i++ {
+			rec.Case()
+			ar := &pb.ActionResult{ExitCode: int32(7 + i), StdoutRaw: rng.Bytes(10 + 50*i),
+				ExecutionMetadata: &pb.ExecutedActionMetadata{Worker: "w"}}
+			arData, _ := proto.Marshal(ar)
+			sum := sha256.Sum256(rng.Bytes(32))
+			key := hex.EncodeToString(sum[:])
+			if err := fx.cache.Put(ctx, cache.AC, key, int64(len(arData)), bytes.NewReader(arData)); err != nil {
+				t.Fatal(err)
+			}
+			ok, _ := px.Contains(ctx, cache.AC, key, -1)
+			rc, _, err := px.Get(ctx, cache.AC, key, -1)
+			var got []byte
+			if rc != nil {
+				got, _ = io.ReadAll(rc)
+				_ = rc.Close()
+			}
+			back := &pb.ActionResult{}
+			same := err == nil && rc != nil && proto.Unmarshal(got, back) == nil && proto.Equal(back, ar)
+			rec.Note(fmt.Sprintf("present AC through a bazel-remote peer mode=%s -> contains=%v get-err=%v same=%v", mode, ok, err, same))
+			rec.Distinct(fmt.Sprintf("ac-present:%s:%d", mode, i))
+			if !ok || !same {
+				rec.Violation("C12", "grpcproxy.ac-present-refused", fmt.Sprintf("%s mode: an action-cache entry held by a bazel-remote peer is not served through the gRPC back-end client: contains=%v err=%v same=%v", mode, ok, err, same), nil)
 			}
 		}
 		fx.server.Stop()
